@@ -146,7 +146,9 @@ impl RecPersister {
 		let _ = name;
 		let c = chan_index(&self.chans, &mon.channel_id());
 		let id = mon.get_latest_update_id();
-		let inprog = *self.in_progress.lock().unwrap();
+		// the documented contract: once a channel has an update in flight, later updates of that
+		// channel cannot be reported Completed before it
+		let inprog = *self.in_progress.lock().unwrap() || self.pending.lock().unwrap().iter().any(|p| p.0 == c);
 		let mut steps = Vec::new();
 		if let Some(u) = update {
 			for s in update_steps(u) {
@@ -232,6 +234,10 @@ enum Wire {
 	ChanUpdate(msgs::ChannelUpdate),
 	Error(msgs::ErrorMessage),
 	Warning(msgs::WarningMessage),
+	OpenChannel(msgs::OpenChannel),
+	AcceptChannel(msgs::AcceptChannel),
+	FundingCreated(msgs::FundingCreated),
+	FundingSigned(msgs::FundingSigned),
 }
 
 struct Pay {
@@ -262,6 +268,8 @@ struct Net {
 	executed: usize,
 	skipped: usize,
 	funding_txids: Vec<(bitcoin::Txid, usize)>,
+	extra_funding: Vec<bitcoin::Transaction>,
+	extra_broadcast: Vec<bitcoin::Transaction>,
 	mgr_snaps: Vec<Vec<Vec<u8>>>,
 	/// snapshot taken while no monitor update of that node was in flight (nothing was being held)
 	mgr_clean: Vec<Vec<bool>>,
@@ -318,6 +326,10 @@ impl Net {
 			Wire::ClosingSigned(m) => json!({"kind":"closing_signed","chan":self.chan(&m.channel_id),"fee":m.fee_satoshis}),
 			Wire::AnnSigs(m) => json!({"kind":"announcement_signatures","chan":self.chan(&m.channel_id)}),
 			Wire::ChanUpdate(_) => json!({"kind":"channel_update","chan":0}),
+			Wire::OpenChannel(_) => json!({"kind":"open_channel","chan":0}),
+			Wire::AcceptChannel(_) => json!({"kind":"accept_channel","chan":0}),
+			Wire::FundingCreated(_) => json!({"kind":"funding_created","chan":0}),
+			Wire::FundingSigned(m) => json!({"kind":"funding_signed","chan":self.chan(&m.channel_id)}),
 			Wire::Error(m) => json!({"kind":"error","chan":self.chan(&m.channel_id),"data":m.data}),
 			Wire::Warning(m) => json!({"kind":"warning","chan":self.chan(&m.channel_id),"data":m.data}),
 		}
@@ -336,6 +348,16 @@ impl Net {
 	/// Drain everything the nodes produced since the last call: outbound messages (queued on the
 	/// links), events, broadcasts.
 	fn drain(&mut self) {
+		// handling an event may queue further messages / events (e.g. accepting a channel): repeat
+		for _ in 0..4 {
+			let before = self.log.lock().unwrap().len();
+			self.drain_once();
+			let lg = self.log.lock().unwrap();
+			if !lg[before..].iter().any(|e| e["ev"] == "event" && (e["kind"] == "OpenChannelRequest" || e["kind"] == "FundingGenerationReady")) { break; }
+		}
+	}
+
+	fn drain_once(&mut self) {
 		let mut want_disc: Vec<(usize, usize)> = Vec::new();
 		for i in 0..self.nodes.len() {
 			let evs = self.nodes[i].node.get_and_clear_pending_msg_events();
@@ -354,6 +376,10 @@ impl Net {
 						}
 					},
 					MessageSendEvent::SendRevokeAndACK { node_id, msg } => self.enqueue(i, &node_id, Wire::RAA(msg)),
+					MessageSendEvent::SendOpenChannel { node_id, msg } => self.enqueue(i, &node_id, Wire::OpenChannel(msg)),
+					MessageSendEvent::SendAcceptChannel { node_id, msg } => self.enqueue(i, &node_id, Wire::AcceptChannel(msg)),
+					MessageSendEvent::SendFundingCreated { node_id, msg } => self.enqueue(i, &node_id, Wire::FundingCreated(msg)),
+					MessageSendEvent::SendFundingSigned { node_id, msg } => self.enqueue(i, &node_id, Wire::FundingSigned(msg)),
 					MessageSendEvent::SendChannelReestablish { node_id, msg } => self.enqueue(i, &node_id, Wire::Reestablish(msg)),
 					MessageSendEvent::SendChannelReady { node_id, msg } => self.enqueue(i, &node_id, Wire::ChannelReady(msg)),
 					MessageSendEvent::SendShutdown { node_id, msg } => self.enqueue(i, &node_id, Wire::Shutdown(msg)),
@@ -396,6 +422,9 @@ impl Net {
 				let ty: String = ty.chars().take_while(|c| c.is_alphanumeric()).collect();
 				use bitcoin::hashes::Hash as _;
 				let known = self.txids.lock().unwrap().get(&tx.compute_txid().to_byte_array()).cloned();
+				if self.extra_funding.iter().any(|f| f.compute_txid() == tx.compute_txid()) && !self.extra_broadcast.iter().any(|f| f.compute_txid() == tx.compute_txid()) {
+					self.extra_broadcast.push(tx.clone());
+				}
 				let mut out_values = tx.output.iter().map(|o| o.value.to_sat()).collect::<Vec<_>>();
 				out_values.sort();
 				let spends = self.funding_chan(tx);
@@ -503,6 +532,21 @@ impl Net {
 				};
 				self.ev(json!({"ev":"event","node":i,"kind":"ChannelClosed","chan":c,"reason":r}));
 			},
+			Event::OpenChannelRequest { temporary_channel_id, counterparty_node_id, .. } => {
+				let ok = self.nodes[i].node.accept_inbound_channel(&temporary_channel_id, &counterparty_node_id, 43, None).is_ok();
+				self.ev(json!({"ev":"event","node":i,"kind":"OpenChannelRequest","accepted":ok}));
+			},
+			Event::FundingGenerationReady { temporary_channel_id, counterparty_node_id, channel_value_satoshis, output_script, .. } => {
+				let tx = bitcoin::Transaction {
+					version: bitcoin::transaction::Version(7 + self.extra_funding.len() as i32),
+					lock_time: bitcoin::absolute::LockTime::ZERO,
+					input: Vec::new(),
+					output: vec![bitcoin::TxOut { value: bitcoin::Amount::from_sat(channel_value_satoshis), script_pubkey: output_script }],
+				};
+				let ok = self.nodes[i].node.funding_transaction_generated(temporary_channel_id, counterparty_node_id, tx.clone()).is_ok();
+				self.extra_funding.push(tx);
+				self.ev(json!({"ev":"event","node":i,"kind":"FundingGenerationReady","ok":ok}));
+			},
 			Event::SpendableOutputs { outputs, .. } => {
 				self.ev(json!({"ev":"event","node":i,"kind":"SpendableOutputs","n":outputs.len()}));
 			},
@@ -553,6 +597,10 @@ impl Net {
 			Wire::ChanUpdate(m) => n.handle_channel_update(from_pk, &m),
 			Wire::Error(m) => n.handle_error(from_pk, &m),
 			Wire::Warning(_) => {},
+			Wire::OpenChannel(m) => n.handle_open_channel(from_pk, &m),
+			Wire::AcceptChannel(m) => n.handle_accept_channel(from_pk, &m),
+			Wire::FundingCreated(m) => n.handle_funding_created(from_pk, &m),
+			Wire::FundingSigned(m) => n.handle_funding_signed(from_pk, &m),
 		}
 		self.drain();
 		true
@@ -668,6 +716,26 @@ impl Net {
 				let f = op["from"].as_u64().unwrap() as usize;
 				let t = op["to"].as_u64().unwrap() as usize;
 				did = self.deliver_one(f, t);
+			},
+			"open_extra" => {
+				let a = op["a"].as_u64().unwrap() as usize;
+				let b = op["b"].as_u64().unwrap() as usize;
+				if a < n && b < n && a != b {
+					let pb = self.nodes[b].node.get_our_node_id();
+					let ok = self.nodes[a].node.create_channel(pb, 150_000, 0, 44, None, None).is_ok();
+					self.ev(json!({"ev":"open_extra","a":a,"b":b,"ok":ok}));
+					self.drain();
+				} else { did = false; }
+			},
+			"confirm_extra" => {
+				// mine every funding transaction of an extra channel that has been broadcast so far
+				let txs: Vec<bitcoin::Transaction> = self.extra_broadcast.drain(..).collect();
+				if txs.is_empty() { did = false; } else {
+					self.ev(json!({"ev":"block","n":6}));
+					for tx in txs.iter() { for i in 0..n { mine_transaction(&self.nodes[i], tx); } }
+					for i in 0..n { connect_blocks(&self.nodes[i], 5); }
+					self.drain();
+				}
 			},
 			"close" => {
 				let a = op["a"].as_u64().unwrap() as usize;
@@ -966,7 +1034,7 @@ fn build_net(run: u64, cfg: &Value, log: &Log) -> Net {
 	let mut net = Net {
 		nodes, cfgs, persisters, queues: HashMap::new(), connected, log: log.clone(), chans, hashes, points: Vec::new(),
 		pays: Vec::new(), scids, chan_ids, run, feerate: vec![feerate0; n], executed: 0, skipped: 0,
-		funding_txids: Vec::new(), mgr_snaps: vec![Vec::new(); n], mgr_clean: vec![Vec::new(); n], node_cfgs, txids,
+		funding_txids: Vec::new(), extra_funding: Vec::new(), extra_broadcast: Vec::new(), mgr_snaps: vec![Vec::new(); n], mgr_clean: vec![Vec::new(); n], node_cfgs, txids,
 	};
 	for i in 0..n {
 		let _ = net.nodes[i].node.get_and_clear_needs_persistence();
@@ -1017,7 +1085,14 @@ fn random_script(rng: &mut StdRng, n: usize, profile: &str) -> Value {
 	let steps = rng.gen_range(10..60);
 	let amts = ["big", "dust", "dust-edge", "justabove", "limit", "limit+1", "min", "min-1", "half"];
 	let mut npay = 0usize;
-	for _ in 0..steps {
+	let extra_at = if profile == "asyncopen" || (profile == "async" && rng.gen_bool(0.3)) { rng.gen_range(0..steps) } else { usize::MAX };
+	for st in 0..steps {
+		if st == extra_at {
+			let (a, b) = if n >= 3 && rng.gen_bool(0.7) { if rng.gen_bool(0.5) { (0, 2) } else { (2, 0) } } else if rng.gen_bool(0.5) { (0, 1) } else { (1, 0) };
+			for i in 0..n { if rng.gen_bool(0.5) { ops.push(json!({"op":"persist_mode","node":i,"mode":"inprogress"})); } }
+			ops.push(json!({"op":"open_extra","a":a,"b":b}));
+		}
+		if extra_at != usize::MAX && st > extra_at && rng.gen_bool(0.15) { ops.push(json!({"op":"confirm_extra"})); }
 		let r = rng.gen_range(0..100);
 		if r < 22 {
 			let src = rng.gen_range(0..n);
@@ -1055,11 +1130,11 @@ fn random_script(rng: &mut StdRng, n: usize, profile: &str) -> Value {
 				ops.push(json!({"op":"crash","node":node,"mgr":rng.gen_range(0..4),"mon":mc}));
 			}
 			for a in 0..n - 1 { if rng.gen_bool(0.8) { ops.push(json!({"op":"reconnect","a":a,"b":a+1})); } }
-		} else if r < 97 && profile == "async" {
+		} else if r < 97 && (profile == "async" || profile == "asyncopen") {
 			ops.push(json!({"op":"persist_mode","node":rng.gen_range(0..n),"mode": if rng.gen_bool(0.6) {"inprogress"} else {"completed"}}));
 		} else if profile == "crash" && rng.gen_bool(0.5) {
 			ops.push(json!({"op":"persist_mode","node":rng.gen_range(0..n),"mode": if rng.gen_bool(0.6) {"inprogress"} else {"completed"}}));
-		} else if profile == "async" || profile == "crash" {
+		} else if profile == "async" || profile == "crash" || profile == "asyncopen" {
 			let wh = ["oldest","newest","all","random"][rng.gen_range(0..4)];
 			ops.push(json!({"op":"complete","node":rng.gen_range(0..n),"which":wh}));
 		} else {
@@ -1070,6 +1145,7 @@ fn random_script(rng: &mut StdRng, n: usize, profile: &str) -> Value {
 	for i in 0..n { ops.push(json!({"op":"persist_mode","node":i,"mode":"completed"})); ops.push(json!({"op":"complete","node":i,"which":"all"})); }
 	for a in 0..n - 1 { ops.push(json!({"op":"reconnect","a":a,"b":a+1})); }
 	ops.push(json!({"op":"deliver_all"}));
+	if extra_at != usize::MAX { ops.push(json!({"op":"confirm_extra"})); ops.push(json!({"op":"deliver_all"})); }
 	for k in 0..npay { ops.push(json!({"op": if rng.gen_bool(0.6) {"claim"} else {"fail"}, "pay":k})); }
 	for i in 0..n { ops.push(json!({"op":"complete","node":i,"which":"all"})); }
 	ops.push(json!({"op":"deliver_all"}));
